@@ -16,7 +16,7 @@
    Not supported in either dialect (answer WfBad "...unsupported: ..."): `...`, method syntax, and
    in Lua53 the bitwise operators and hexadecimal floats.
 
-   lua_wf d src = WfOk  iff
+   lua_wf d src = WfOk  iff  (the FIRST violated item gives the reason; 7 is checked before 2-6)
    1. the source tokenizes and parses (LuaLex / LuaParse).  This already covers: reserved words used as
       a variable, field or label name; assignment to something that is not a name or an index
       expression; an expression statement that is not a call; string literals with a raw
@@ -35,8 +35,11 @@
    6. no function refers to more than 60 (LuaJIT) / 255 (Lua53) distinct variables of enclosing
       functions, directly or through its nested functions.
 
+   7. the nesting depth of the source is at most 199 levels of the recursive-descent parser (section 7
+      below says exactly which productions count).
+
    Not modelled: the limit on registers/"function or expression too complex" (250 slots), on
-   constants (65536), on nesting depth of the C parser (200 levels), on jump distances. *)
+   constants (65536), on jump distances. *)
 From Coq Require Import String Ascii List NArith Bool.
 From Sylt Require Import Lua.LuaAst Lua.LuaLex Lua.LuaParse Lua.LuaNum.
 Import ListNotations.
@@ -295,11 +298,244 @@ with wf_block (d : dialect) (n : nat) (c : wctx) (entry : N) (is_repeat : bool) 
       end
   end.
 
-Definition wf_chunk (d : dialect) (fuel : nat) (b : block) : wf_result :=
-  match wf_block d fuel (mkCtx [] O 0%N false) 0%N false b [] [] (mkW 0%N [[]]) with
+(* ------------------------------------------------------------------------------------------ *)
+(* 7. nesting levels of the recursive-descent parsers.
+
+   Lua 5.3 (lparser.c): `enterlevel` does ++L->nCcalls and fails with
+       "main function has more than 200 C levels" / "function at line N has more than 200 C levels"
+   when nCcalls > LUAI_MAXCCALLS = 200.  It is called by exactly two productions:
+       statement   (so a statement inside k nested blocks is at level k + 1), and
+       subexpr     (every expression read by `expr`, every right operand of a binary operator, every
+                    operand of a unary operator).
+   nCcalls is 1 when the stand-alone interpreter parses a chunk (the parser runs inside the C function
+   pmain, called through lua_pcall) and it is never reset for a nested function body: `body` is reached
+   from subexpr -> simpleexp or from a statement, so levels accumulate through function bodies.
+   Hence a chunk loads iff its depth (defined below) is at most 199.
+
+   LuaJIT (lj_parse.c): `synlevel_begin` does ++ls->level and fails with
+       "chunk has too many syntax levels"
+   when level >= LJ_MAX_XLEVEL = 200.  It is called by parse_chunk (once per block, the main chunk and
+   function bodies included, even when the block is empty) and by expr_binop (= subexpr above); the
+   level starts at 0 and is not reset per function.  Hence, again, depth at most 199, where a block
+   counts 1 for itself instead of 1 for each of its statements (same number unless the block is empty).
+
+   Depth of the concrete syntax, computed on the AST:
+     D e   one `subexpr` invocation reading e:                       1 + W e
+     W e   e as the running operand inside an invocation:
+             a op b  ->  max (W a) (D b)      (the left operand is accumulated by the same invocation's
+                                               loop, the right one is read by a nested invocation)
+             op a    ->  D a
+             else    ->  S e
+     S e   simpleexp / suffixedexp:
+             constants, names 0;  (a) -> D a;  a.name -> S a;  a[k] -> max (S a) (D k);
+             f(args) -> max (S f) (max D args);  f{fields} -> max (S f) (fields);
+             function ... end -> B body;  {fields}: a positional or named field e costs D e, [k] = v costs
+             max (D k) (D v)
+     B b   a block: Lua53 max over its statements of 1 + T s;  LuaJIT 1 + max over its statements of T s
+     T s   inside one statement: the D of its expressions (conditions, right-hand sides, loop bounds,
+           returned values), the S of a call statement and of assignment targets, number of targets - 1
+           for a multiple assignment (restassign / parse_assignment add nvars to the level), the B of its
+           blocks and function bodies.
+
+   What the AST cannot tell apart is resolved as the Sylt compiler writes it (and stated here):
+     * ECall f [ETable _] is read as f{...} (what lua.rs emits: __LIST{ }, __TUPLE{ }, ...); the form
+       f({...}) is one level deeper in the real parsers;
+     * an index by a string that is a valid name is read as a.name; a["name"] is one level deeper when
+       that key is the deepest point;
+     * `elseif` is counted like `else if ... end` (one level more than the real parsers; the compiler
+       only emits the nested form, for which the count is exact);
+     * `function a.b() ... end` is counted like `a.b = function() ... end` (one level more than real);
+     * f"str" is counted like f("str");
+     * the desugared method call e:m(args) is recognised and counted as written: max (S e) (args).
+   Not counted: consecutive labels / `;` after a label (each nests one level in both parsers). *)
+
+Definition max_levels : N := 199%N.
+
+Definition is_name_string (d : dialect) (s : string) : bool :=
+  match s with
+  | EmptyString => false
+  | String c r =>
+      is_alpha d c && negb (is_keyword s)
+      && (fix all (r : string) : bool :=
+            match r with EmptyString => true | String c' r' => is_alnum d c' && all r' end) r
+  end.
+
+(* the shape LuaParse gives to a method call  obj:m(margs):
+     ECall (EFunc ["(self)"] [SReturn [ECall (EIndex (EVar "(self)") (EStr m)) (EVar "(self)" :: margs)]]) [obj] *)
+Definition method_parts (f : expr) (args : list expr) : option (expr * list expr) :=
+  match f, args with
+  | EFunc [ms] [SReturn [ECall (EIndex (EVar ms1) (EStr _)) (EVar ms2 :: margs)]], [obj] =>
+      if String.eqb ms method_self && String.eqb ms1 method_self && String.eqb ms2 method_self
+      then Some (obj, margs) else None
+  | _, _ => None
+  end.
+
+(* fns = false: function bodies count 0 (used to tell whether the main function alone is too deep) *)
+Fixpoint lvD (d : dialect) (fns : bool) (n : nat) (e : expr) {struct n} : wres N :=
+  match n with
+  | O => out_of_fuel
+  | S n => do* w <- lvW d fns n e; inr (1 + w)%N
+  end
+
+with lvW (d : dialect) (fns : bool) (n : nat) (e : expr) {struct n} : wres N :=
+  match n with
+  | O => out_of_fuel
+  | S n =>
+      match e with
+      | EBin _ a b => do* x <- lvW d fns n a; do* y <- lvD d fns n b; inr (N.max x y)
+      | EUn _ a => lvD d fns n a
+      | _ => lvS d fns n e
+      end
+  end
+
+with lvS (d : dialect) (fns : bool) (n : nat) (e : expr) {struct n} : wres N :=
+  match n with
+  | O => out_of_fuel
+  | S n =>
+      match e with
+      | ENil | ETrue | EFalse | ENum _ _ | EStr _ | EVar _ => inr 0%N
+      | EParen a => lvD d fns n a
+      | EIndex a k =>
+          do* x <- lvS d fns n a;
+          match k with
+          | EStr s => if is_name_string d s then inr x else inr (N.max x 1)
+          | _ => do* y <- lvD d fns n k; inr (N.max x y)
+          end
+      | ECall f args =>
+          match method_parts f args with
+          | Some (obj, margs) =>
+              (* obj:m(margs) as desugared by the parser *)
+              do* x <- lvS d fns n obj; do* y <- lvArgs d fns n margs; inr (N.max x y)
+          | None => do* x <- lvS d fns n f; do* y <- lvArgs d fns n args; inr (N.max x y)
+          end
+      | EFunc _ b => if fns then lvB d fns n b else inr 0%N
+      | ETable fs => lvFields d fns n fs
+      | EBin _ _ _ | EUn _ _ => lvW d fns n e       (* not produced by the parser in this position *)
+      end
+  end
+
+(* the arguments of a call *)
+with lvArgs (d : dialect) (fns : bool) (n : nat) (args : list expr) {struct n} : wres N :=
+  match n with
+  | O => out_of_fuel
+  | S n =>
+      match args with
+      | [ETable fs] => lvFields d fns n fs
+      | _ => lvExprs d fns n args
+      end
+  end
+
+(* max of D over a list of expressions *)
+with lvExprs (d : dialect) (fns : bool) (n : nat) (es : list expr) {struct n} : wres N :=
+  match n with
+  | O => out_of_fuel
+  | S n =>
+      match es with
+      | [] => inr 0%N
+      | e :: es' => do* x <- lvD d fns n e; do* y <- lvExprs d fns n es'; inr (N.max x y)
+      end
+  end
+
+with lvFields (d : dialect) (fns : bool) (n : nat) (fs : list field) {struct n} : wres N :=
+  match n with
+  | O => out_of_fuel
+  | S n =>
+      match fs with
+      | [] => inr 0%N
+      | FPos e :: fs' => do* x <- lvD d fns n e; do* y <- lvFields d fns n fs'; inr (N.max x y)
+      | FKey k v :: fs' =>
+          do* xk <- (match k with
+                     | EStr s => if is_name_string d s then inr 0%N else inr 1%N
+                     | _ => lvD d fns n k
+                     end);
+          do* xv <- lvD d fns n v;
+          do* y <- lvFields d fns n fs';
+          inr (N.max (N.max xk xv) y)
+      end
+  end
+
+(* a block *)
+with lvB (d : dialect) (fns : bool) (n : nat) (b : block) {struct n} : wres N :=
+  match n with
+  | O => out_of_fuel
+  | S n =>
+      if is53 d then lvStmts d fns n 1%N b
+      else do* x <- lvStmts d fns n 0%N b; inr (1 + x)%N
+  end
+
+(* max over the statements of  per + T s *)
+with lvStmts (d : dialect) (fns : bool) (n : nat) (per : N) (b : block) {struct n} : wres N :=
+  match n with
+  | O => out_of_fuel
+  | S n =>
+      match b with
+      | [] => inr 0%N
+      | s :: b' => do* x <- lvT d fns n s; do* y <- lvStmts d fns n per b'; inr (N.max (per + x) y)
+      end
+  end
+
+(* inside one statement *)
+with lvT (d : dialect) (fns : bool) (n : nat) (s : stmt) {struct n} : wres N :=
+  match n with
+  | O => out_of_fuel
+  | S n =>
+      match s with
+      | SLocal _ es => lvExprs d fns n es
+      | SAssign ts es =>
+          do* x <- lvTargets d fns n ts;
+          do* y <- lvExprs d fns n es;
+          inr (N.max (N.max x (N.of_nat (List.length ts) - 1)) y)
+      | SCall f args => lvS d fns n (ECall f args)
+      | SLocalFun _ _ b => if fns then lvB d fns n b else inr 0%N
+      | SDo b => lvB d fns n b
+      | SWhile c b => do* x <- lvD d fns n c; do* y <- lvB d fns n b; inr (N.max x y)
+      | SRepeat b c => do* x <- lvB d fns n b; do* y <- lvD d fns n c; inr (N.max x y)
+      | SIf c t e =>
+          do* x <- lvD d fns n c; do* y <- lvB d fns n t; do* z <- lvB d fns n e;
+          inr (N.max x (N.max y z))
+      | SNumFor _ lo hi st b =>
+          do* x <- lvExprs d fns n (lo :: hi :: match st with Some e => [e] | None => [] end);
+          do* y <- lvB d fns n b; inr (N.max x y)
+      | SGenFor _ es b => do* x <- lvExprs d fns n es; do* y <- lvB d fns n b; inr (N.max x y)
+      | SReturn es => lvExprs d fns n es
+      | SBreak | SGoto _ | SLabel _ => inr 0%N
+      end
+  end
+
+(* assignment targets are suffixed expressions *)
+with lvTargets (d : dialect) (fns : bool) (n : nat) (ts : list expr) {struct n} : wres N :=
+  match n with
+  | O => out_of_fuel
+  | S n =>
+      match ts with
+      | [] => inr 0%N
+      | e :: ts' => do* x <- lvS d fns n e; do* y <- lvTargets d fns n ts'; inr (N.max x y)
+      end
+  end.
+
+Definition levels_ok (d : dialect) (fuel : nat) (b : block) : wf_result :=
+  match lvB d true fuel b with
   | inl m => WfBad m
-  | inr (_, (l, _) :: _, _) => WfBad ("undefined label '" ++ l ++ "'")
-  | inr (_, [], _) => WfOk
+  | inr depth =>
+      if (depth <=? max_levels)%N then WfOk
+      else if is53 d then
+        match lvB d false fuel b with
+        | inr dm => if (dm <=? max_levels)%N then WfBad "function has more than 200 C levels"
+                    else WfBad "main function has more than 200 C levels"
+        | inl m => WfBad m
+        end
+      else WfBad "chunk has too many syntax levels"
+  end.
+
+Definition wf_chunk (d : dialect) (fuel : nat) (b : block) : wf_result :=
+  match levels_ok d fuel b with
+  | WfBad m => WfBad m
+  | WfOk =>
+      match wf_block d fuel (mkCtx [] O 0%N false) 0%N false b [] [] (mkW 0%N [[]]) with
+      | inl m => WfBad m
+      | inr (_, (l, _) :: _, _) => WfBad ("undefined label '" ++ l ++ "'")
+      | inr (_, [], _) => WfOk
+      end
   end.
 
 Definition lua_wf (d : dialect) (src : string) : wf_result :=
